@@ -21,6 +21,8 @@ package main
 //   D:<k>:<body>              DELETE slot k with a raw body (correct secret)
 //   X:<k>:<cmid>:<data>       propose a message-of-death entry for slot k directly to raft
 //                             (the log a node sees after the first copy was rewritten as MoD)
+//   Q:<k>:<cmid>:<data>       propose a raw IRCFromClient entry for slot k directly to raft (a second copy that a
+//                             lagging handler proposed, DESIGN D14; or any entry with a chosen client message id)
 //   S                         swap the state for Unmarshal(Marshal(state)) as FSM.Restore does
 //   R:<meth>:<pathtmpl>:<hdrspec>:<basicspec>:<body>   one recorded request of the C11 matrix
 //   W:<path>                  probe a path without any credentials through main()'s wiring
@@ -304,6 +306,24 @@ func (r *verifApiRun) digest() string {
 	var l []string
 	for id, s := range ircServer.GetSessions() {
 		l = append(l, fmt.Sprintf("%d:%s:%s:%v:%v", id.Id, s.Nick, s.Username, s.Operator, len(s.Channels)))
+	}
+	sort.Strings(l)
+	fmt.Fprint(h, l)
+	return hex.EncodeToString(h.Sum(nil))[:16]
+}
+
+// stateDigest: the IRC state without the raft position: sessions with their activity stamps
+// (UpdateLastClientMessageID moves LastActivity, so a processed entry always shows), channels,
+// markers, configuration, lastProcessed and the newest output batch.
+func (r *verifApiRun) stateDigest() string {
+	rev, base, banned := verifApiConfigDigest(ircServer)
+	h := sha256.New()
+	fmt.Fprintf(h, "live=%v markers=%s rev=%d base=%s banned=%s lp=%d out=%v chans=%d",
+		verifApiLiveIDs(), r.markers(), rev, base, banned, verifApiLastProcessed(), outputStream.LastSeen(), ircServer.NumChannels())
+	var l []string
+	for id, s := range ircServer.GetSessions() {
+		l = append(l, fmt.Sprintf("%d:%s:%s:%s:%v:%d:%d:%d:%s:%s:%d", id.Id, s.Nick, s.Username, s.Realname, s.Operator, len(s.Channels),
+			s.LastActivity.UnixNano(), s.LastNonPing.UnixNano(), s.AwayMsg, s.RemoteAddr, ircServer.LastPostMessage(id)))
 	}
 	sort.Strings(l)
 	fmt.Fprint(h, l)
@@ -631,6 +651,30 @@ func (r *verifApiRun) op(tok string) (obs string) {
 		s.lastBody = body
 		return fmt.Sprintf("X|sid=%d|cmid=%d|err=%v|%s|lpm=%d|alive=%v", s.id, cmid, ferr != nil, tail,
 			ircServer.LastPostMessage(robust.Id{Id: s.id}), verifApiAlive(s.id))
+
+	case "Q":
+		// a raw IRCFromClient entry proposed directly to raft: what the log contains when a handler
+		// that lagged behind the log (D14) proposed the retry a second time
+		s := r.slot(a[1])
+		cmid, _ := strconv.ParseUint(a[2], 10, 64)
+		msg := &robust.Message{Session: robust.Id{Id: s.id}, Type: robust.IRCFromClient, Data: verifApiUnhex(a[3]),
+			ClientMessageId: cmid, UnixNano: time.Now().UnixNano(), RemoteAddr: s.addr}
+		b, err := proto.Marshal(msg.ProtoMessage())
+		if err != nil {
+			return "Q|err=" + verifApiHex(err.Error())
+		}
+		verifApiBarrier()
+		dg := r.stateDigest()
+		d := r.begin()
+		f := node.Apply(append([]byte{'p'}, b...), 10*time.Second)
+		ferr := f.Error()
+		tail := r.end(d)
+		same := 0
+		if r.stateDigest() == dg {
+			same = 1
+		}
+		return fmt.Sprintf("Q|sid=%d|cmid=%d|data=%s|err=%v|%s|lpm=%d|alive=%v|same=%d", s.id, cmid, a[3], ferr != nil, tail,
+			ircServer.LastPostMessage(robust.Id{Id: s.id}), verifApiAlive(s.id), same)
 
 	case "S":
 		verifApiBarrier()
